@@ -112,6 +112,11 @@ pub fn run(outdir: &str, seed: u64, thorough: bool) -> serde_json::Value {
                 Some((d, t, s)) => if d != rel1.to_string() || t != text1 || s != schema_sig(&rel1) { st.violation(json!({"kind":"compilation-in-another-thread-differs","class":class,"query":sql})); break; },
                 None => { st.violation(json!({"kind":"compilation-in-another-thread-fails","class":class,"query":sql})); break; } } }
         }
+        // (c0) the rendering names every CTE once: two definitions under one name cannot be read back as the relation they came from
+        if let Ok(q) = qrlew::sql::parse(&text1) { if let Some(with) = &q.with {
+            let mut seen = std::collections::BTreeSet::new();
+            for c in with.cte_tables.iter() { if !seen.insert(c.alias.name.value.clone()) { st.violation(json!({"kind":"rendered-sql-defines-a-cte-twice","class":class,"query":sql,"cte":c.alias.name.value,"rendered":text1.chars().take(600).collect::<String>()})); break; } }
+        } }
         // (c) rendering twice
         if render(&rel1) != text1 { st.violation(json!({"kind":"rendering-twice-differs","class":class,"query":sql})); }
         // (d) re-parse the rendered text: same output schema, same results; and once more
